@@ -25,6 +25,12 @@ JAR = "/opt/veriftools/tla/tla2tools.jar:/opt/veriftools/tla/CommunityModules-de
 GOENV = dict(GOFLAGS="-mod=mod", GOPROXY="off", GOSUMDB="off", GOTOOLCHAIN="local")
 
 
+# verdict classes of the routing trace specification that only the owning property's check turns into a violation:
+#   accept   the code accepted / refused a registration against P_WellFormed (owned by C08: promote = {"accept"})
+#   tainted  an event of a case whose set of registered routes is not the one layer P knows (no verdict)
+OUTSIDE = {"accept", "tainted"}
+
+
 class Infra(Exception):
     """Infrastructure problem: no verdict (exit 2)."""
 
@@ -304,9 +310,18 @@ class Run:
             by_case.setdefault((f["chunk"], f["reset_line"]), []).append(f)
         n_repro = 0
         for (chunk, case), fl in sorted(by_case.items(), key=lambda kv: kv[0][1]):
+            promote = getattr(self, "promote", set())
+            for f in fl:
+                if f["verdict"] in promote:
+                    f["verdict"] = "bad"        # a verdict class this property owns (e.g. "accept" for C08)
             verdicts = sorted(set(f["verdict"] for f in fl))
             bad = [v for v in verdicts if v == "bad"]
             for v in verdicts:
+                if v in OUTSIDE:
+                    # judged by another property's check (or no verdict at all): not this property's business
+                    self.cov.setdefault("outside_property", {})
+                    self.cov["outside_property"][v] = self.cov["outside_property"].get(v, 0) + 1
+                    continue
                 if v != "bad":
                     self.known_hit[v] = self.known_hit.get(v, 0) + 1
                     self.cov["excused_by_known_finding"] += 1
@@ -338,7 +353,7 @@ class Run:
         if p.returncode != 0:
             return True, dict(kind="harness-died", rc=p.returncode, stderr=p.stderr[-3000:])
         fl = self.validate_file(tmodule, cfg_tmpl, tr, "%s_repro%d" % (tmodule, self.n_tlc))
-        bad = [f for f in fl if f[1] == "bad"]
+        bad = [f for f in fl if f[1] == "bad" or f[1] in getattr(self, "promote", set())]
         if not bad:
             return False, dict(kind="not-reproduced", fails=fl)
         events = [json.loads(x) for x in open(tr)]
